@@ -211,6 +211,11 @@ class XFloat(XBuiltin):
             if isinstance(value, str) and value:
                 return float(value)
         else:
+            if isinstance(value, float):
+                if value != value:
+                    return "NaN"
+                if value in (float("inf"), float("-inf")):
+                    return "INF" if value > 0 else "-INF"
             return value
 
 
